@@ -11,3 +11,42 @@ package comm
 //@   preserves @std
 //@   ensures blockchain.storeskept() && core.cfgstable()
 
+
+// ---- Kauri aggregation (C09): a contribution is merged only after its signature verified over
+// the block being voted on and only if it shares no signer with what was aggregated so far; a
+// rejected contribution changes nothing; a QC is emitted exactly when the aggregate reaches the
+// quorum, and it names this block and view and carries exactly the aggregate.
+//@ pred kwf(k *Kauri) = k.logger != nil && k.eventLoop != nil && k.config != nil && k.blockchain != nil && k.auth != nil && k.auth.Base != nil && blockchain.binv(k.blockchain) && blockchain.bmaps(k.blockchain) && k.blockchain.sender != nil && k.blockchain.eventLoop != nil
+//@ func (*Kauri).mergeContribution property C09
+//@   requires kwf(k)
+//@   ensures [rejected-changes-nothing] result != nil ==> k.aggContrib == old(k.aggContrib) && tracelen(added) == old(tracelen(added))
+//@   ensures [accepted-was-verified] result == nil ==> currentSignature != nil && has(k.blockchain.blocks, k.blockHash) && (forall id hotstuff.ID :: {hotstuff.setmem(hotstuff.parts(currentSignature), id)} hotstuff.setmem(hotstuff.parts(currentSignature), id) ==> crypto.sigvalid(k.auth.Base, currentSignature, id, hotstuff.blockcontent(k.blockchain.blocks[k.blockHash])))
+//@   ensures [aggregate-present] result == nil ==> k.aggContrib != nil
+//@   ensures [first] result == nil && old(k.aggContrib) == nil ==> k.aggContrib == currentSignature && tracelen(added) == old(tracelen(added))
+//@   ensures [merged-only-disjoint] result == nil && old(k.aggContrib) != nil ==> (forall x hotstuff.ID :: {hotstuff.setmem(hotstuff.parts(currentSignature), x)} hotstuff.setmem(hotstuff.parts(currentSignature), x) ==> !hotstuff.setmem(hotstuff.parts(old(k.aggContrib)), x))
+//@   ensures [qc-exactly-at-quorum] result == nil && old(k.aggContrib) != nil ==> (tracelen(added) == old(tracelen(added)) + 1) == (hotstuff.setlen(hotstuff.parts(k.aggContrib)) >= hotstuff.Q(len(k.config.replicas))) && (tracelen(added) == old(tracelen(added)) || tracelen(added) == old(tracelen(added)) + 1)
+//@   ensures [qc-names-block-and-view] tracelen(added) > old(tracelen(added)) ==> istype(traceev(added, 0, old(tracelen(added))), hotstuff.NewViewMsg) && as(traceev(added, 0, old(tracelen(added))), hotstuff.NewViewMsg).SyncInfo.qc != nil && as(traceev(added, 0, old(tracelen(added))), hotstuff.NewViewMsg).SyncInfo.qc.hash == k.blockHash && as(traceev(added, 0, old(tracelen(added))), hotstuff.NewViewMsg).SyncInfo.qc.view == k.currentView && as(traceev(added, 0, old(tracelen(added))), hotstuff.NewViewMsg).SyncInfo.qc.signature == k.aggContrib
+//@   modifies k.aggContrib, trace(added), k.eventLoop.eventQ.head, k.eventLoop.eventQ.tail, k.eventLoop.eventQ.entries[*], k.blockchain.blocks[*], k.blockchain.blockAtHeight[*], k.blockchain.pendingFetch[*], k.blockchain.eventLoop.handlers[*], alloc
+
+// A contribution for another view is ignored entirely; one for the current view is counted
+// (its sender recorded) only if it was merged; the aggregate goes up the tree at most once per
+// call, as (current view, current aggregate), and is then marked as sent. No panic for any
+// decoded contribution.
+//@ func (*Kauri).onContributionRecv property C09,C10
+//@   requires kwf(k) && k.tree != nil && tree.tbounds(*k.tree) && tree.tdistinct(*k.tree) && k.sender != nil && contribution != nil && hotstuffpb.wsig(contribution.Signature)
+//@   requires [own-list] cap(k.senders) == 0 || disjoint(k.senders, k.tree.treePosToID)
+//@   ensures [other-view-ignored] old(k.currentView) != contribution.View ==> k.aggContrib == old(k.aggContrib) && len(k.senders) == old(len(k.senders)) && k.aggSent == old(k.aggSent) && tracelen(sentup) == old(tracelen(sentup)) && tracelen(added) == old(tracelen(added))
+//@   ensures [counted-only-if-merged] len(k.senders) == old(len(k.senders)) || (len(k.senders) == old(len(k.senders)) + 1 && k.senders[len(k.senders) - 1] == contribution.ID && k.aggContrib != nil)
+//@   ensures [not-merged-not-counted] len(k.senders) == old(len(k.senders)) ==> tracelen(sentup) == old(tracelen(sentup)) && k.aggSent == old(k.aggSent)
+//@   ensures [sent-up-once] tracelen(sentup) == old(tracelen(sentup)) || (tracelen(sentup) == old(tracelen(sentup)) + 1 && k.aggSent && traceat(sentup, 0, old(tracelen(sentup))) == k.currentView && traceev(sentup, 1, old(tracelen(sentup))) == k.aggContrib)
+//@   modifies k.aggContrib, k.aggSent, k.senders, k.senders[*], trace(added), trace(sentup), k.eventLoop.eventQ.head, k.eventLoop.eventQ.tail, k.eventLoop.eventQ.entries[*], k.blockchain.blocks[*], k.blockchain.blockAtHeight[*], k.blockchain.pendingFetch[*], k.blockchain.eventLoop.handlers[*], alloc
+//@   preserves @std
+
+// The wait timer of another view is ignored; otherwise whatever was aggregated goes up once.
+//@ func (*Kauri).onWaitTimerExpired property C09
+//@   requires k.sender != nil
+//@   ensures [other-view-ignored] old(k.currentView) != event.currentView ==> tracelen(sentup) == old(tracelen(sentup)) && k.aggContrib == old(k.aggContrib)
+//@   ensures [not-twice] old(k.aggSent) ==> tracelen(sentup) == old(tracelen(sentup))
+//@   ensures [sent-up] old(k.currentView) == event.currentView && !old(k.aggSent) ==> tracelen(sentup) == old(tracelen(sentup)) + 1 && traceat(sentup, 0, old(tracelen(sentup))) == old(k.currentView)
+//@   modifies k.aggContrib, k.aggSent, k.senders, trace(sentup), alloc
+//@   preserves @std
